@@ -172,7 +172,8 @@ def make_scripted_variational_loss(log: Log):
 
         jax.debug.callback(rec, key_bytes(key), jax.lax.stop_gradient(theta), ordered=True)
         idx = jnp.clip(jnp.round(jax.lax.stop_gradient(theta)).astype(int), 0, table.shape[0] - 1)
-        return table[idx].astype(theta.dtype) + 0.0 * theta
+        v = table[idx].astype(theta.dtype)
+        return jnp.where(table[idx] == 0, jnp.nan, v) + 0.0 * theta          # script value 0 stands for a NaN loss
 
     return loss_fn
 
@@ -206,7 +207,7 @@ class VariationalSession:
             "script": [int(v) for v in table],
             "ev": fold(log.ev),
             "ret": {"theta": int(round(float(out[0]))), "nl": len(losses),
-                    "losses": [int(round(float(v))) for v in losses]},
+                    "losses": [0 if float(v) != float(v) else int(round(float(v))) for v in losses]},
         }
 
 
